@@ -38,7 +38,9 @@ ATOMS = [
     '[1, 2] is byte[]', '[vi] is byte[]', '5 is int', "'c' is int", 'vy is bool', 'vb is bool', 'ai is int[]', 'vs is string',
     'fi()', 'fy()', 'fb()', 'fs()', 'fe()',
     'ai[0]', 'cay[0]', 'vs[0]', 'as[0]', 'vi[0]', 'ab[0]', '"lit"[1]', '[1, 2][0]',
-    'ai.length', 'vs.length', 'vi.length', '[1].length',
+    'ai.length', 'vs.length', 'vi.length', '[1].length', '"lit".length', 'cs.length', 'cs.length + 1', '[1, 2].length + 1',
+    # constant arithmetic that wraps at the 16-bit word: still not a literal
+    'ci * 20000', 'gci * 30000 + 1', '(ci + 32767) * 2',
     'vi < 2', 'vb == cb', 'vb == vi', 'vs == vs', 'vy == 97', 'not vi', 'vb and vs', 'vi or ai',
 ]
 TYPES = ['int', 'byte', 'bool', 'string', 'int[]', 'const int[]', 'byte[]', 'const byte[]', 'bool[]', 'const bool[]', 'string[]', 'const string[]']
